@@ -170,6 +170,9 @@ class Executor:
     def alloc(self, st, cls, prefix=None):
         r = fresh(prefix or ('new_' + cls), Ref)
         st.assume(r != NONE, z3.Not(st.heap.alive(r)))
+        if st.old is not None:
+            # allocation only grows: what is allocated now did not exist when the function was entered
+            st.assume(z3.Not(st.old.heap.alive(r)))
         if cls in self.table.class_ids:
             st.assume(cls_of(r) == self.table.class_ids[cls])
         st.heap.set_alive(r)
@@ -180,18 +183,44 @@ class Executor:
         st.heap.set_llen(r, n if not isinstance(n, int) else z3.IntVal(n))
         if arrs is not None:
             st.heap.set_larrs(r, ety, arrs)
-        return V(Ty('ref', cls='list', exact=True, elem=ety), r)
+        return self.tag_container(st, V(Ty('ref', cls='list', exact=True, elem=ety), r))
 
     def new_dict(self, st, kty, vty):
         r = self.alloc(st, 'dict')
         st.heap.set_ddom(r, z3.K(Ref, z3.BoolVal(False)))
         st.heap.set_dorder(r, z3.IntVal(0), st.heap.dkeys(r))
-        return self.note_dict(V(Ty('ref', cls='dict', exact=True, key=kty, val=vty), r))
+        return self.tag_container(st, self.note_dict(V(Ty('ref', cls='dict', exact=True, key=kty, val=vty), r)))
 
     def note_dict(self, v):
         if isinstance(v, V) and v.kind == 'ref' and v.ty.cls == 'dict':
             self.dict_terms.setdefault(v.t.get_id(), v.t)
         return v
+
+    def tag_container(self, st, v):
+        """Typing discipline of the shapes: a list/dict object met at static type T has container type T, so two
+        containers of different declared types are never the same object (they share the heap encoding)."""
+        if isinstance(v, V) and v.kind == 'ref' and v.ty.cls in ('list', 'dict'):
+            st.assume(z3.Implies(v.t != NONE, sym.ctype(v.t) == sym.ctype_id(v.ty)))
+        return v
+
+    def tag_reachable(self, st, root, cls, depth=3, seen=None):
+        """tag the container-typed fields of `root` and of the objects it reaches through declared reference fields"""
+        seen = set() if seen is None else seen
+        if depth < 0 or cls not in self.table.classes or (cls, root.get_id()) in seen:
+            return
+        seen.add((cls, root.get_id()))
+        fields = {}
+        for c in reversed(self.table.classes[cls].mro):
+            fields.update(self.specs.shapes.get(c, {}))
+        for f, ty in fields.items():
+            if ty.kind != 'ref':
+                continue
+            v = st.heap.load(root, f, ty)
+            if ty.cls in ('list', 'dict'):
+                st.assume(z3.Implies(z3.And(root != NONE, v.t != NONE), sym.ctype(v.t) == sym.ctype_id(ty)))
+            elif ty.cls in self.table.classes and depth > 0 and ty.cls in ('Environment', 'ResourceManager', 'ReservedResources',
+                                                                          'System', 'Group'):
+                self.tag_reachable(st, v.t, ty.cls, depth - 1, seen)
 
     def bound_ref_pool(self, st):
         """Bounded refutation mode: the finite set of references over which a `refs()` quantifier is
@@ -1549,6 +1578,8 @@ class Executor:
                 if ty.cls in self.table.classes and ty.cls not in ('list', 'dict'):
                     s1.assume(z3.Or(v.t == NONE, self.isinstance_term(v.t, ty.cls)))
             self.note_dict(v)
+            if not s1.pure:
+                self.tag_container(s1, v)
             out.append((v, s1))
         return out
 
